@@ -232,14 +232,24 @@ impl<SystemType : System> History<SystemType>
             Err(_) => return Err(HistoryError::CannotSerializeRuleHistory(rule_history_file_path)),
         };
 
-        let mut file =
-        match system.create_file(&rule_history_file_path)
-        {
-            Ok(file) => file,
-            Err(_error) => return Err(HistoryError::CannotWriteRuleHistoryFile(rule_history_file_path)),
-        };
+        /*  Write a sibling file first and move it into place, so that the history file is never
+            observable empty or half-written (for instance when ruler is killed mid-write). */
+        let temp_file_path = format!("{}.tmp", rule_history_file_path);
 
-        match file.write_all(&content)
+        match system.create_file(&temp_file_path)
+        {
+            Ok(mut file) =>
+            {
+                match file.write_all(&content)
+                {
+                    Ok(_) => {},
+                    Err(_error) => return Err(HistoryError::CannotWriteRuleHistoryFile(rule_history_file_path)),
+                }
+            },
+            Err(_error) => return Err(HistoryError::CannotWriteRuleHistoryFile(rule_history_file_path)),
+        }
+
+        match system.rename(&temp_file_path, &rule_history_file_path)
         {
             Ok(_) => Ok(()),
             Err(_error) => Err(HistoryError::CannotWriteRuleHistoryFile(rule_history_file_path)),
